@@ -66,8 +66,8 @@ def Agrees (s : State) (σ : Nat → Option Outcome) : Prop :=
 /-- consistency of the awaited Deferreds -/
 structure WFD (s : State) : Prop where
   called : ∀ i, (s.ds i).called = (s.ds i).delivered.isSome
-  result : ∀ i, (s.ds i).result = none ∨ (s.ds i).result = (s.ds i).delivered
-  fresh : ∀ i, s.next ≤ i → (s.ds i).result = (s.ds i).delivered
+  result : ∀ i, (s.ds i).result = none ∨ (s.ds i).result.map Res.outcome = (s.ds i).delivered
+  fresh : ∀ i, s.next ≤ i → (s.ds i).result.map Res.outcome = (s.ds i).delivered
 
 /-- the function waits: for Deferred `next - 1`, which has not fired -/
 structure Waiting (s : State) : Prop where
@@ -127,7 +127,7 @@ theorem runGen_ok (σ : Nat → Option Outcome) (g : Gen) :
   | await k ih =>
     intro s w a
     simp only [runGen]
-    rcases hr : (s.ds s.next).result with _ | o
+    rcases hr : (s.ds s.next).result with _ | r
     · -- suspend
       simp only
       have hdel : (s.ds s.next).delivered = none := by
@@ -143,9 +143,9 @@ theorem runGen_ok (σ : Nat → Option Outcome) (g : Gen) :
         rw [bindR_pure]
     · -- the Deferred already has a result
       simp only
-      have hdel : (s.ds s.next).delivered = some o := by
+      have hdel : (s.ds s.next).delivered = some r.outcome := by
         have := w.fresh s.next (Nat.le_refl _); rw [hr] at this; exact this.symm
-      have hσ : σ s.next = some o := a _ _ hdel
+      have hσ : σ s.next = some r.outcome := a _ _ hdel
       let s1 : State := { (s.setD s.next { s.ds s.next with result := none }) with next := s.next + 1 }
       have hsame : SameD s s1 := by
         intro i
@@ -162,7 +162,36 @@ theorem runGen_ok (σ : Nat → Option Outcome) (g : Gen) :
         · have hne : i ≠ s.next := by simp [s1] at hi; omega
           have : s1.ds i = s.ds i := by simp [s1, State.setD, hne]
           rw [this]; exact w.fresh i (by simp [s1] at hi; omega)
-      have h := ih o s1 w1 ((Agrees.of_sameD hsame).mpr a)
+      have h := ih r.outcome s1 w1 ((Agrees.of_sameD hsame).mpr a)
+      refine ⟨h.wfd, hsame.trans h.same, h.final, h.stack, ?_⟩
+      have hs := h.spec
+      simp only [feed, hσ]
+      exact hs
+  | awaitC k ih =>
+    -- `Deferred.__iter__`: same reference behaviour; the Deferred keeps its result
+    intro s w a
+    simp only [runGen]
+    rcases hr : (s.ds s.next).result with _ | r
+    · simp only
+      have hdel : (s.ds s.next).delivered = none := by
+        have := w.fresh s.next (Nat.le_refl _); rw [hr] at this; exact this.symm
+      have hcal : (s.ds s.next).called = false := by rw [w.called, hdel]; rfl
+      refine ⟨⟨w.called, w.result, fun i hi => w.fresh i (by simp at hi; omega)⟩, SameD.refl s, rfl, rfl, ?_⟩
+      refine ⟨by simp, ⟨by simp, by simp, by simpa using hcal⟩, ?_⟩
+      simp only [feed, resumeSpec, Nat.add_sub_cancel]
+      cases σ s.next with
+      | none => rfl
+      | some o =>
+        simp only [feedStack]
+        rw [bindR_pure]
+    · simp only
+      have hdel : (s.ds s.next).delivered = some r.outcome := by
+        have := w.fresh s.next (Nat.le_refl _); rw [hr] at this; exact this.symm
+      have hσ : σ s.next = some r.outcome := a _ _ hdel
+      let s1 : State := { s with next := s.next + 1 }
+      have hsame : SameD s s1 := fun _ => ⟨rfl, rfl, rfl, rfl, rfl⟩
+      have w1 : WFD s1 := ⟨w.called, w.result, fun i hi => w.fresh i (by simp [s1] at hi; omega)⟩
+      have h := ih r.outcome s1 w1 ((Agrees.of_sameD hsame).mpr a)
       refine ⟨h.wfd, hsame.trans h.same, h.final, h.stack, ?_⟩
       have hs := h.spec
       simp only [feed, hσ]
@@ -234,12 +263,12 @@ theorem unwind_ok (σ : Nat → Option Outcome) (fs : List (Outcome → Gen)) :
       exact (resumeSpec_append σ gs rest s1.next s1.log).symm
 
 /-- **The simulation invariant** of a started run of program `p`. -/
-structure Inv (p : Stmt) (s : State) : Prop where
+structure Inv (coro : Bool) (p : Stmt) (s : State) : Prop where
   wfd : WFD s
   waiting : s.stack ≠ [] → Waiting s
   spec : ∀ σ, Agrees s σ →
-    (s.stack = [] → ∃ c n', s.final = [c] ∧ feed σ (gen p) 0 [] = (some (c, n'), s.log)) ∧
-    (s.stack ≠ [] → s.final = [] ∧ feed σ (gen p) 0 [] = resumeSpec σ s.stack s.next s.log)
+    (s.stack = [] → ∃ c n', s.final = [c] ∧ feed σ (gen coro p) 0 [] = (some (c, n'), s.log)) ∧
+    (s.stack ≠ [] → s.final = [] ∧ feed σ (gen coro p) 0 [] = resumeSpec σ s.stack s.next s.log)
 
 /-- before the function is called: Deferreds may have been fired, nothing else happened -/
 structure PreInv (s : State) : Prop where
@@ -252,10 +281,10 @@ structure PreInv (s : State) : Prop where
 theorem agrees_self (s : State) : Agrees s (fun i => (s.ds i).delivered) := fun _ _ h => h
 
 /-- resuming a stack whose reference behaviour is the rest of the program re-establishes `Inv` -/
-theorem inv_of_unwind (p : Stmt) (s0 : State) (fs : List (Outcome → Gen)) (o : Outcome)
+theorem inv_of_unwind (coro : Bool) (p : Stmt) (s0 : State) (fs : List (Outcome → Gen)) (o : Outcome)
     (w0 : WFD s0) (hfin : s0.final = [])
-    (hspec : ∀ σ, Agrees s0 σ → feed σ (gen p) 0 [] = feedStack σ fs o s0.next s0.log) :
-    Inv p (unwind fs o s0) := by
+    (hspec : ∀ σ, Agrees s0 σ → feed σ (gen coro p) 0 [] = feedStack σ fs o s0.next s0.log) :
+    Inv coro p (unwind fs o s0) := by
   have u0 := unwind_ok _ fs o s0 w0 (agrees_self s0)
   refine ⟨u0.wfd, ?_, ?_⟩
   · intro hne
@@ -269,9 +298,9 @@ theorem inv_of_unwind (p : Stmt) (s0 : State) (fs : List (Outcome → Gen)) (o :
     · exact ⟨fun _ => ⟨c, n', by rw [hf, hfin]; rfl, (hspec σ a0).trans he⟩, fun hne => absurd hst hne⟩
     · exact ⟨fun hst => absurd hst hne, fun _ => ⟨hf.trans hfin, (hspec σ a0).trans he⟩⟩
 
-theorem start_inv (p : Stmt) (s : State) (h : PreInv s) : Inv p (start p s) := by
+theorem start_inv (coro : Bool) (p : Stmt) (s : State) (h : PreInv s) : Inv coro p (start coro p s) := by
   have w : WFD (s.mark .start) := ⟨h.wfd.called, h.wfd.result, h.wfd.fresh⟩
-  refine inv_of_unwind p (s.mark .start) _ _ w h.final ?_
+  refine inv_of_unwind coro p (s.mark .start) _ _ w h.final ?_
   intro σ _
   have hn : (s.mark .start).next = 0 := h.next
   have hl : (s.mark .start).log = [] := h.log
@@ -316,7 +345,7 @@ theorem FlagEq.agrees {s s' : State} (h : FlagEq s s') {σ} : Agrees s' σ ↔ A
   · intro a i o hd; exact a i o ((h.ds i).2.2 ▸ hd)
   · intro a i o hd; exact a i o ((h.ds i).2.2 ▸ hd)
 
-theorem FlagEq.inv {p : Stmt} {s s' : State} (h : FlagEq s s') (v : Inv p s) : Inv p s' := by
+theorem FlagEq.inv {coro : Bool} {p : Stmt} {s s' : State} (h : FlagEq s s') (v : Inv coro p s) : Inv coro p s' := by
   refine ⟨h.wfd v.wfd, ?_, ?_⟩
   · intro hne
     have hw := v.waiting (h.stack ▸ hne)
@@ -340,23 +369,23 @@ theorem flagEq_setD (s : State) (i : Nat) (d : AwD) (h1 : d.called = (s.ds i).ca
   · simp [hj]
 
 /-- the Deferred `i` as `_startRunCallbacks` leaves it -/
-def firedD (d : AwD) (o : Outcome) (r : Option Outcome) : AwD :=
+def firedD (d : AwD) (o : Outcome) (r : Option Res) : AwD :=
   { d with called := true, canc := .none, delivered := some o, result := r }
 
-theorem fire_eq (s : State) (i : Nat) (o : Outcome) :
-    (fire s i o).1 =
+theorem fire_eq (s : State) (i : Nat) (x : Res) :
+    (fire s i x).1 =
       if (s.ds i).called then
         (if (s.ds i).suppress then s.setD i { s.ds i with suppress := false } else s)
       else if !s.stack.isEmpty && s.waitingOn == some i then
-        unwind s.stack o (s.setD i (firedD (s.ds i) o none))
-      else s.setD i (firedD (s.ds i) o (some o)) := by
+        unwind s.stack x.outcome (s.setD i (firedD (s.ds i) x.outcome none))
+      else s.setD i (firedD (s.ds i) x.outcome (some x)) := by
   unfold fire firedD
   by_cases h1 : (s.ds i).called = true
   · by_cases h2 : (s.ds i).suppress = true <;> simp [h1, h2]
   · by_cases h3 : (!s.stack.isEmpty && s.waitingOn == some i) = true <;> simp [h1, h3]
 
-theorem wfd_fired (s : State) (w : WFD s) (i : Nat) (o : Outcome) (r : Option Outcome)
-    (hr : r = none ∨ r = some o) (hfresh : s.next ≤ i → r = some o) :
+theorem wfd_fired (s : State) (w : WFD s) (i : Nat) (o : Outcome) (r : Option Res)
+    (hr : r = none ∨ r.map Res.outcome = some o) (hfresh : s.next ≤ i → r.map Res.outcome = some o) :
     WFD (s.setD i (firedD (s.ds i) o r)) := by
   refine ⟨fun j => ?_, fun j => ?_, fun j hj => ?_⟩
   · by_cases h : j = i
@@ -377,8 +406,9 @@ theorem agrees_fired (s : State) (w : WFD s) (i : Nat) (o : Outcome) (r) (hc : (
     have := w.called j; rw [hc, hd] at this; simp at this
   exact a j x (by simp [hne, hd])
 
-theorem fire_inv (p : Stmt) (s : State) (v : Inv p s) (i : Nat) (o : Outcome) : Inv p (fire s i o).1 := by
+theorem fire_inv (coro : Bool) (p : Stmt) (s : State) (v : Inv coro p s) (i : Nat) (x : Res) : Inv coro p (fire s i x).1 := by
   rw [fire_eq]
+  generalize ho : x.outcome = o
   by_cases h1 : (s.ds i).called = true
   · rw [if_pos h1]
     by_cases h2 : (s.ds i).suppress = true
@@ -393,7 +423,7 @@ theorem fire_inv (p : Stmt) (s : State) (v : Inv p s) (i : Nat) (o : Outcome) : 
       have hw := v.waiting hne
       have hi : i = s.next - 1 := by have := hw.on; rw [hon] at this; exact Option.some.inj this
       have hfin : s.final = [] := ((v.spec _ (agrees_self s)).2 hne).1
-      refine inv_of_unwind p _ s.stack o (wfd_fired s v.wfd i o none (Or.inl rfl) ?_) hfin ?_
+      refine inv_of_unwind coro p _ s.stack o (wfd_fired s v.wfd i o none (Or.inl rfl) ?_) hfin ?_
       · intro hle; have := hw.pos; omega
       · intro σ a
         obtain ⟨hσ, a0⟩ := agrees_fired s v.wfd i o none hc a
@@ -401,8 +431,8 @@ theorem fire_inv (p : Stmt) (s : State) (v : Inv p s) (i : Nat) (o : Outcome) : 
         rw [this, resumeSpec, ← hi, hσ]
         rfl
     · rw [if_neg h3]
-      have hw1 : WFD (s.setD i (firedD (s.ds i) o (some o))) :=
-        wfd_fired s v.wfd i o (some o) (Or.inr rfl) (fun _ => rfl)
+      have hw1 : WFD (s.setD i (firedD (s.ds i) o (some x))) :=
+        wfd_fired s v.wfd i o (some x) (Or.inr (by simp [ho])) (fun _ => by simp [ho])
       refine ⟨hw1, ?_, ?_⟩
       · intro hne
         have hne' : s.stack ≠ [] := hne
@@ -419,10 +449,10 @@ theorem fire_inv (p : Stmt) (s : State) (v : Inv p s) (i : Nat) (o : Outcome) : 
         simp only [setD_next, setD_ds, this, if_false]
         exact hw.unfired
       · intro σ a
-        obtain ⟨_, a0⟩ := agrees_fired s v.wfd i o (some o) hc a
+        obtain ⟨_, a0⟩ := agrees_fired s v.wfd i o (some x) hc a
         exact v.spec σ a0
 
-theorem fire_preInv (s : State) (v : PreInv s) (i : Nat) (o : Outcome) : PreInv (fire s i o).1 := by
+theorem fire_preInv (s : State) (v : PreInv s) (i : Nat) (x : Res) : PreInv (fire s i x).1 := by
   rw [fire_eq]
   have hst : s.stack.isEmpty = true := by rw [v.stack]; rfl
   by_cases h1 : (s.ds i).called = true
@@ -432,7 +462,7 @@ theorem fire_preInv (s : State) (v : PreInv s) (i : Nat) (o : Outcome) : PreInv 
     · rw [if_neg h2]; exact v
   · rw [if_neg h1]
     simp only [hst, Bool.not_true, Bool.false_and, Bool.false_eq_true, if_false]
-    exact ⟨wfd_fired s v.wfd i o (some o) (Or.inr rfl) (fun _ => rfl), v.next, v.stack, v.final, v.log⟩
+    exact ⟨wfd_fired s v.wfd i x.outcome (some x) (Or.inr rfl) (fun _ => rfl), v.next, v.stack, v.final, v.log⟩
 
 /-- what one `callback`/`errback` on awaited Deferred `i` does to the observation fields of all awaited Deferreds -/
 structure FireFacts (s s' : State) (i : Nat) (o : Outcome) : Prop where
@@ -443,8 +473,9 @@ structure FireFacts (s s' : State) (i : Nat) (o : Outcome) : Prop where
 
 theorem fire_facts (s : State) (w : WFD s) (i : Nat)
     (hi : (!s.stack.isEmpty && s.waitingOn == some i) = true → s.next ≤ i → False)
-    (o : Outcome) : FireFacts s (fire s i o).1 i o := by
+    (x : Res) : FireFacts s (fire s i x).1 i x.outcome := by
   rw [fire_eq]
+  generalize x.outcome = o
   by_cases h1 : (s.ds i).called = true
   · rw [if_pos h1]
     by_cases h2 : (s.ds i).suppress = true
@@ -472,10 +503,10 @@ theorem fire_facts (s : State) (w : WFD s) (i : Nat)
       · exact ⟨((u j).1).trans (k.others j hj).1, ((u j).2.1).trans (k.others j hj).2⟩
       · exact ⟨((u i).2.1).trans (k.accepted h).1, ((u i).1).trans (k.accepted h).2⟩
     · rw [if_neg h3]
-      exact key (some o)
+      exact key (some x)
 
 /-- under the invariant the side condition of `fire_facts` holds -/
-theorem Inv.hooked_lt {p : Stmt} {s : State} (v : Inv p s) (i : Nat)
+theorem Inv.hooked_lt {coro : Bool} {p : Stmt} {s : State} (v : Inv coro p s) (i : Nat)
     (h : (!s.stack.isEmpty && s.waitingOn == some i) = true) : s.next ≤ i → False := by
   have hne : s.stack ≠ [] := by intro h'; simp [h'] at h
   have hon : s.waitingOn = some i := by simp at h; exact h.2
@@ -487,42 +518,42 @@ theorem Inv.hooked_lt {p : Stmt} {s : State} (v : Inv p s) (i : Nat)
 theorem bumpCancel_flagEq (s : State) (i : Nat) : FlagEq s (bumpCancel s i) :=
   flagEq_setD s i { s.ds i with cancelCalls := (s.ds i).cancelCalls + 1 } rfl rfl rfl
 
-theorem callCanceller_inv (p : Stmt) (s : State) (v : Inv p s) (i : Nat) : Inv p (callCanceller s i) := by
+theorem callCanceller_inv (coro : Bool) (p : Stmt) (s : State) (v : Inv coro p s) (i : Nat) : Inv coro p (callCanceller s i) := by
   unfold callCanceller
   split
   · exact (flagEq_setD s i { s.ds i with suppress := true } rfl rfl rfl).inv v
   · exact v
-  · exact fire_inv p s v i _
-  · exact fire_inv p s v i _
+  · exact fire_inv coro p s v i _
+  · exact fire_inv coro p s v i _
 
-theorem cancelD_inv (p : Stmt) (s : State) (v : Inv p s) (i : Nat) : Inv p (cancelD s i) := by
+theorem cancelD_inv (coro : Bool) (p : Stmt) (s : State) (v : Inv coro p s) (i : Nat) : Inv coro p (cancelD s i) := by
   unfold cancelD
   have v0 := (bumpCancel_flagEq s i).inv v
   simp only
   split
   · exact v0
-  · have v1 := callCanceller_inv p _ v0 i
+  · have v1 := callCanceller_inv coro p _ v0 i
     split
-    · exact fire_inv p _ v1 i _
+    · exact fire_inv coro p _ v1 i _
     · exact v1
 
-theorem cancel_inv (p : Stmt) (s : State) (v : Inv p s) : Inv p (cancel s) := by
+theorem cancel_inv (coro : Bool) (p : Stmt) (s : State) (v : Inv coro p s) : Inv coro p (cancel s) := by
   unfold cancel
   split
   · exact v
   · split
-    · exact cancelD_inv p s v _
+    · exact cancelD_inv coro p s v _
     · exact v
 
-theorem step_inv (p : Stmt) (s : State) (v : Inv p s) (e : Event) : Inv p (step s e) := by
+theorem step_inv (coro : Bool) (p : Stmt) (s : State) (v : Inv coro p s) (e : Event) : Inv coro p (step s e) := by
   cases e with
   | fire i o =>
-    have v1 := fire_inv p _ ((flagEq_mark s (.fire i)).inv v) i o
+    have v1 := fire_inv coro p _ ((flagEq_mark s (.fire i)).inv v) i o
     simp only [step]
     split
     · rename_i s' h; rw [h] at v1; exact (flagEq_mark s' .already).inv v1
     · rename_i s' h; rw [h] at v1; exact v1
-  | cancel => exact cancel_inv p _ ((flagEq_mark s .cancel).inv v)
+  | cancel => exact cancel_inv coro p _ ((flagEq_mark s .cancel).inv v)
 
 theorem step_preInv (s : State) (v : PreInv s) (e : Event) : PreInv (step s e) := by
   cases e with
@@ -538,10 +569,10 @@ theorem step_preInv (s : State) (v : PreInv s) (e : Event) : PreInv (step s e) :
     have : (s.mark .cancel).stack.isEmpty = true := by rw [v1.stack]; rfl
     rw [if_pos this]; exact v1
 
-theorem foldl_inv (p : Stmt) (es : List Event) : ∀ s, Inv p s → Inv p (es.foldl step s) := by
+theorem foldl_inv (coro : Bool) (p : Stmt) (es : List Event) : ∀ s, Inv coro p s → Inv coro p (es.foldl step s) := by
   induction es with
   | nil => intro s v; exact v
-  | cons e es ih => intro s v; exact ih _ (step_inv p s v e)
+  | cons e es ih => intro s v; exact ih _ (step_inv coro p s v e)
 
 theorem foldl_preInv (es : List Event) : ∀ s, PreInv s → PreInv (es.foldl step s) := by
   induction es with
@@ -552,8 +583,8 @@ theorem init_preInv (specs : List Canc) : PreInv (init specs) :=
   ⟨⟨fun _ => rfl, fun _ => Or.inl rfl, fun _ _ => rfl⟩, rfl, rfl, rfl, rfl⟩
 
 /-- every state of every run satisfies the invariant -/
-theorem run_inv (p : Stmt) (specs : List Canc) (pre post : List Event) : Inv p (run p specs pre post) :=
-  foldl_inv p post _ (start_inv p _ (foldl_preInv pre _ (init_preInv specs)))
+theorem run_inv (coro : Bool) (p : Stmt) (specs : List Canc) (pre post : List Event) : Inv coro p (run coro p specs pre post) :=
+  foldl_inv coro p post _ (start_inv coro p _ (foldl_preInv pre _ (init_preInv specs)))
 
 /-! ### what `cancel()` does to the awaited Deferreds -/
 
@@ -562,7 +593,7 @@ def cancelOutcome : Canc → Outcome
   | .none => .exc .cancelled
   | .noop => .exc .cancelled
   | .firesOk v => .val v
-  | .firesErr n => .exc (.user n)
+  | .firesErr _ e => .exc e
 
 structure CancelFacts (s s' : State) (i : Nat) : Prop where
   hit : (s'.ds i).cancelCalls = (s.ds i).cancelCalls + 1
@@ -570,7 +601,7 @@ structure CancelFacts (s s' : State) (i : Nat) : Prop where
   fired : (s'.ds i).called = true
   outcome : (s'.ds i).delivered = some (cancelOutcome (s.ds i).canc)
 
-theorem cancelD_facts (p : Stmt) (s : State) (v : Inv p s) (i : Nat) (hc : (s.ds i).called = false) :
+theorem cancelD_facts (coro : Bool) (p : Stmt) (s : State) (v : Inv coro p s) (i : Nat) (hc : (s.ds i).called = false) :
     CancelFacts s (cancelD s i) i := by
   have f0 := bumpCancel_flagEq s i
   have v0 := f0.inv v
@@ -581,7 +612,7 @@ theorem cancelD_facts (p : Stmt) (s : State) (v : Inv p s) (i : Nat) (hc : (s.ds
   have hc0 : ((bumpCancel s i).ds i).called = false := by rw [b_i]; exact hc
   unfold cancelD
   simp only [hc0, Bool.false_eq_true, if_false]
-  have ff := fun (t : State) (vt : Inv p t) (o : Outcome) => fire_facts t vt.wfd i (vt.hooked_lt i) o
+  have ff := fun (t : State) (vt : Inv coro p t) (o : Res) => fire_facts t vt.wfd i (vt.hooked_lt i) o
   cases hcanc : (s.ds i).canc with
   | none =>
     have hcc : callCanceller (bumpCancel s i) i
@@ -591,7 +622,7 @@ theorem cancelD_facts (p : Stmt) (s : State) (v : Inv p s) (i : Nat) (hc : (s.ds
       rw [hcc]; exact flagEq_setD _ i _ rfl rfl rfl
     have v1 := f1.inv v0
     have hc1 : ((callCanceller (bumpCancel s i) i).ds i).called = false := by rw [(f1.ds i).1]; exact hc0
-    have k := ff _ v1 (.exc .cancelled)
+    have k := ff _ v1 (.fail .plain .cancelled)
     simp only [hc1, Bool.not_false, if_true]
     have hcc_i : ((callCanceller (bumpCancel s i) i).ds i).cancelCalls = (s.ds i).cancelCalls + 1 := by
       rw [hcc]; simp [b_i]
@@ -603,24 +634,24 @@ theorem cancelD_facts (p : Stmt) (s : State) (v : Inv p s) (i : Nat) (hc : (s.ds
     have hcc : callCanceller (bumpCancel s i) i = bumpCancel s i := by
       unfold callCanceller; rw [b_i]; simp [hcanc]
     rw [hcc]
-    have k := ff _ v0 (.exc .cancelled)
+    have k := ff _ v0 (.fail .plain .cancelled)
     simp only [hc0, Bool.not_false, if_true]
     refine ⟨(k.cancelCalls i).trans (by rw [b_i]), fun j hj => ?_, (k.accepted hc0).1, by rw [hcanc]; exact (k.accepted hc0).2⟩
     exact ⟨(k.cancelCalls j).trans (by rw [b_j j hj]), ((k.others j hj).1).trans (by rw [b_j j hj])⟩
   | firesOk x =>
-    have hcc : callCanceller (bumpCancel s i) i = (fire (bumpCancel s i) i (.val x)).1 := by
+    have hcc : callCanceller (bumpCancel s i) i = (fire (bumpCancel s i) i (.ok x)).1 := by
       unfold callCanceller; rw [b_i]; simp [hcanc]
     rw [hcc]
-    have k := ff _ v0 (.val x)
+    have k := ff _ v0 (.ok x)
     have hc1 := (k.accepted hc0).1
     simp only [hc1, Bool.not_true, Bool.false_eq_true, if_false]
     refine ⟨(k.cancelCalls i).trans (by rw [b_i]), fun j hj => ?_, hc1, by rw [hcanc]; exact (k.accepted hc0).2⟩
     exact ⟨(k.cancelCalls j).trans (by rw [b_j j hj]), ((k.others j hj).1).trans (by rw [b_j j hj])⟩
-  | firesErr x =>
-    have hcc : callCanceller (bumpCancel s i) i = (fire (bumpCancel s i) i (.exc (.user x))).1 := by
+  | firesErr c x =>
+    have hcc : callCanceller (bumpCancel s i) i = (fire (bumpCancel s i) i (.fail c x)).1 := by
       unfold callCanceller; rw [b_i]; simp [hcanc]
     rw [hcc]
-    have k := ff _ v0 (.exc (.user x))
+    have k := ff _ v0 (.fail c x)
     have hc1 := (k.accepted hc0).1
     simp only [hc1, Bool.not_true, Bool.false_eq_true, if_false]
     refine ⟨(k.cancelCalls i).trans (by rw [b_i]), fun j hj => ?_, hc1, by rw [hcanc]; exact (k.accepted hc0).2⟩
